@@ -3,7 +3,7 @@ use std::io::{Write, stdout};
 use std::path::Path;
 use std::{collections::BTreeMap, path::PathBuf};
 
-use anyhow::{Result, bail, ensure};
+use anyhow::{Result, anyhow, bail, ensure};
 use serde::{Deserialize, Serialize};
 
 use dolby_vision::rpu::extension_metadata::MasteringDisplayPrimaries;
@@ -484,7 +484,7 @@ impl EditConfig {
         let levels = self
             .rpu_levels
             .as_ref()
-            .expect("Levels to replace must be present");
+            .ok_or_else(|| anyhow!("Levels to replace must be present"))?;
 
         for (dst_rpu, src_rpu) in zip_iter {
             dst_rpu.replace_levels_from_rpu(src_rpu, levels)?;
